@@ -22,6 +22,10 @@ if TYPE_CHECKING:
     from ndonnx import Array
 
 
+def _both_boolean(x, y) -> bool:
+    return all(a.dtype in (dtypes.bool, dtypes.nbool) for a in (x, y))
+
+
 class _BooleanOperationsImpl(OperationsBlock):
     @validate_core
     def equal(self, x, y) -> Array:
@@ -52,12 +56,22 @@ class _BooleanOperationsImpl(OperationsBlock):
         # If one of the operands is True and the broadcasted shape can be guaranteed to be the other array's shape,
         # we can return this other array directly.
         x, y = map(ndx.asarray, (x, y))
-        y_np = y.to_numpy()
-        x_np = x.to_numpy()
-        if x_np is not None and x_np.size == 1 and x.ndim <= y.ndim and x_np.item():
-            return y.copy()
-        elif y_np is not None and y_np.size == 1 and y.ndim <= x.ndim and y_np.item():
-            return x.copy()
+        if not _both_boolean(x, y):
+            return NotImplemented
+        # The shortcut is only sound when neither operand can carry nulls and the result
+        # dtype is the plain boolean dtype of the returned operand.
+        if x.dtype == ndx.bool and y.dtype == ndx.bool:
+            y_np = y.to_numpy()
+            x_np = x.to_numpy()
+            if x_np is not None and x_np.size == 1 and x.ndim <= y.ndim and x_np.item():
+                return y.copy()
+            elif (
+                y_np is not None
+                and y_np.size == 1
+                and y.ndim <= x.ndim
+                and y_np.item()
+            ):
+                return x.copy()
         return binary_op(x, y, opx.and_)
 
     @validate_core
@@ -69,19 +83,33 @@ class _BooleanOperationsImpl(OperationsBlock):
         # If one of the operands is False and the broadcasted shape can be guaranteed to be the other array's shape,
         # we can return this other array directly.
         x, y = map(ndx.asarray, (x, y))
-        x_np = x.to_numpy()
-        y_np = y.to_numpy()
-        if x_np is not None and x_np.size == 1 and x.ndim <= y.ndim and not x_np.item():
-            return y.copy()
-        elif (
-            y_np is not None and y_np.size == 1 and y.ndim <= x.ndim and not y_np.item()
-        ):
-            return x.copy()
+        if not _both_boolean(x, y):
+            return NotImplemented
+        # See logical_and: only plain boolean operands may be short-circuited.
+        if x.dtype == ndx.bool and y.dtype == ndx.bool:
+            x_np = x.to_numpy()
+            y_np = y.to_numpy()
+            if (
+                x_np is not None
+                and x_np.size == 1
+                and x.ndim <= y.ndim
+                and not x_np.item()
+            ):
+                return y.copy()
+            elif (
+                y_np is not None
+                and y_np.size == 1
+                and y.ndim <= x.ndim
+                and not y_np.item()
+            ):
+                return x.copy()
         return binary_op(x, y, opx.or_)
 
     @validate_core
     def logical_xor(self, x, y):
         x, y = map(ndx.asarray, (x, y))
+        if not _both_boolean(x, y):
+            return NotImplemented
         return binary_op(x, y, opx.xor)
 
     @validate_core
